@@ -34,7 +34,7 @@ def demo_cmd(wt):
     txt = open(src).read()
     head = txt[:3000]
     head = re.sub(r'\\\s*\n\s*\*?\s*', ' ', head)      # join continuation lines of the comment
-    m = re.search(r'((?:cc|gcc|clang)\s[^\n]*?&&\s*\./[\w./-]+)', head)
+    m = re.search(r'((?:cc|gcc|clang)\s[^\n]*?&&\s*(?:\./)?[\w./-]+)', head)
     if not m:
         raise SystemExit('no build/run command found at the top of demo.c')
     return m.group(1).strip()
